@@ -7,7 +7,7 @@ from typing import Optional
 
 from cryptography.hazmat.primitives.ciphers.aead import AESGCM
 
-from ..buffer import Buffer
+from ..buffer import Buffer, size_uint_var
 from .rangeset import RangeSet
 
 PACKET_LONG_HEADER = 0x80
@@ -622,16 +622,44 @@ def pull_ack_frame(buf: Buffer) -> tuple[RangeSet, int]:
     return rangeset, delay
 
 
-def push_ack_frame(buf: Buffer, rangeset: RangeSet, delay: int) -> int:
+def push_ack_frame(
+    buf: Buffer, rangeset: RangeSet, delay: int, max_size: Optional[int] = None
+) -> int:
+    """
+    Write the body of an ACK frame and return the number of ranges written.
+
+    If `max_size` is given, the oldest ranges which do not fit in `max_size`
+    bytes are left out (RFC 9000 section 13.2.3 allows this).
+    """
     ranges = len(rangeset)
     index = ranges - 1
     r = rangeset[index]
+    if max_size is not None:
+        # Determine how many ranges fit, starting from the most recent one.
+        size = (
+            size_uint_var(r.stop - 1)
+            + size_uint_var(delay)
+            + size_uint_var(index)
+            + size_uint_var(r.stop - 1 - r.start)
+        )
+        start = r.start
+        ranges = 1
+        for i in range(index - 1, -1, -1):
+            older = rangeset[i]
+            size += size_uint_var(start - older.stop - 1) + size_uint_var(
+                older.stop - older.start - 1
+            )
+            if size > max_size:
+                break
+            start = older.start
+            ranges += 1
+    first = index - (ranges - 1)
     buf.push_uint_var(r.stop - 1)
     buf.push_uint_var(delay)
-    buf.push_uint_var(index)
+    buf.push_uint_var(ranges - 1)
     buf.push_uint_var(r.stop - 1 - r.start)
     start = r.start
-    while index > 0:
+    while index > first:
         index -= 1
         r = rangeset[index]
         buf.push_uint_var(start - r.stop - 1)
